@@ -371,13 +371,26 @@ def check_quoted_consumed(run, f, cfg):
                                     rets.add(id(H.peel_ref(l["init"])))
             except Exception:
                 pass
+            # .. also when the encoded name is part of the text the function returns (`format!("{}{}{}", l, x.quoted(q), r)`)
+            ret_sps = set()
+            try:
+                ct = T.fn_tir(f, name)
+                for p_ in P.fn_paths(ct.body):
+                    if p_.value is not None and T.is_stringy(T.strip_ref(f.ty(fn.get("ret")) or "")):
+                        for a in T.atoms(ct.S(p_.value)):
+                            if a[0] == "hole" and a[1] == "IDEN_QUOTED_BODY" and len(a) > 3:
+                                ret_sps.add(a[3])
+                            if a[0] == "callv" and len(a) > 3:
+                                ret_sps.add(("callv", a[1], a[3]))
+            except Exception:
+                pass
             for c in calls:
                 cal = c.get("callee") or ""
                 if c.get("sp") in consumed or ("callv", cal, c.get("sp")) in consumed:
                     if _round == 0:
                         n += 1
                     continue
-                if id(c) in rets:
+                if id(c) in rets or c.get("sp") in ret_sps or ("callv", cal, c.get("sp")) in ret_sps:
                     if name not in sources:
                         sources.add(name)
                         grew = True
